@@ -230,9 +230,8 @@ def monStep (ws : List String) : String :=
         | .ok (_, d), some f =>
           match ((" ".intercalate instWords).splitOn ";").filter (· ≠ "") |>.mapM parseInst with
           | some insts =>
-            let sp := spId l.env.arch
             let (vars, init, dests) := setup (valsOf d l.dsts)
-            match run vars f.saOffSp f.saOffSa sp init insts with
+            match run vars f l.env.arch (saInit f ++ init) insts with
             | none => "BAD unknown-instruction-or-address"
             | some fin =>
               if shuffleOk dests fin then "good"
